@@ -523,7 +523,7 @@ func C17(c *core.Ctx) {
 			if !isCall {
 				return 0, 0
 			}
-			if id, okID := core.Callee(&cl.Call); !okID || id.Name != "Get" || id.Recv != "Table" {
+			if id, okID := core.Callee(&cl.Call); !okID || !isFaceLookup(c.P, id) {
 				return 0, 0
 			}
 			_, a := core.CallArgs(&cl.Call)
@@ -531,9 +531,42 @@ func C17(c *core.Ctx) {
 				return 0, 0
 			}
 			named := false
-			for _, l := range sl.Leaves(a[0]) {
-				if strings.HasSuffix(strings.Join(l.Via, ""), ".FaceId*") {
-					named = true
+			args := []ssa.Value{a[0]}
+			// the test sits in a predicate shared by the handlers (faceExists(id) bool):
+			// the id it looks up is what this handler passes to it
+			if prm, isPrm := core.Strip(a[0]).(*ssa.Parameter); isPrm && prm.Parent() != fn {
+				g := prm.Parent()
+				idx := -1
+				for i, q := range g.Params {
+					if q == prm {
+						idx = i
+					}
+				}
+				for _, ci := range p.Callers(g) {
+					inReach := false
+					for _, r := range core.Reach(fn) {
+						if ci.Parent() == r {
+							inReach = true
+						}
+					}
+					if !inReach || idx < 0 {
+						continue
+					}
+					recv, as := core.CallArgs(ci.Common())
+					all := as
+					if g.Signature.Recv() != nil {
+						all = append([]ssa.Value{recv}, as...)
+					}
+					if idx < len(all) {
+						args = append(args, all[idx])
+					}
+				}
+			}
+			for _, av := range args {
+				for _, l := range sl.Leaves(av) {
+					if strings.HasSuffix(strings.Join(l.Via, ""), ".FaceId*") {
+						named = true
+					}
 				}
 			}
 			if !named {
@@ -1346,7 +1379,7 @@ func c17Round4(c *core.Ctx) {
 				if !isCall {
 					return 0, 0
 				}
-				if id, okID := core.Callee(&cl.Call); !okID || id.Name != "Get" || id.Recv != "Table" {
+				if id, okID := core.Callee(&cl.Call); !okID || !isFaceLookup(c.P, id) {
 					return 0, 0
 				}
 				_, a := core.CallArgs(&cl.Call)
@@ -1564,7 +1597,7 @@ func c17Round4(c *core.Ctx) {
 				if !isCall {
 					return 0, 0
 				}
-				if id, okID := core.Callee(&cl.Call); !okID || id.Name != "Get" || id.Recv != "Table" {
+				if id, okID := core.Callee(&cl.Call); !okID || !isFaceLookup(c.P, id) {
 					return 0, 0
 				}
 				_, a := core.CallArgs(&cl.Call)
@@ -2287,4 +2320,43 @@ func c17DatasetItemFieldsPerItem(c *core.Ctx) {
 	}
 	c.Decide(bad == "", "R17.23", "dataset-item-fields-decided-per-item", "-", fmt.Sprintf("%d optional fields of dataset items stored inside loops over a table, none from a value carried round the loop", n), "a status dataset fills an optional field of an item from a variable that is carried round the loop over the entries ("+bad+"): an entry without the property is listed with the value of an earlier entry — the dataset does not describe the current table")
 	c.Floor("R17.23", "optional fields of dataset items stored inside loops in fw/mgmt", n, 1)
+}
+
+// isFaceLookup: a call that answers "does the face with this id still exist". The face
+// table's own Get always is one. dispatch.GetFace is one as long as face.Table.Remove takes
+// the face out of the dispatch table before it cleans the face's routes and next hops up
+// (then a face found there has not had its clean-up yet, exactly as with the face table);
+// when the dispatch entry outlives the clean-up, a command that finds the face there
+// installs a route that nothing removes.
+func isFaceLookup(p *core.Prog, id core.CalleeID) bool {
+	if id.Name == "Get" && id.Recv == "Table" && id.Pkg == "fw/face" {
+		return true
+	}
+	if id.Name != "GetFace" || id.Pkg != "fw/dispatch" {
+		return false
+	}
+	rm := p.Func("fw/face", "Table", "Remove")
+	if rm == nil {
+		return false
+	}
+	var cleanups []ssa.Instruction
+	core.Instrs(rm, func(in ssa.Instruction) {
+		if ci, ok := in.(ssa.CallInstruction); ok {
+			if cid, okC := core.Callee(ci.Common()); okC && (cid.Name == "CleanUpFace" || cid.Name == "cleanUpFibNextHops") {
+				cleanups = append(cleanups, in)
+			}
+		}
+	})
+	if len(cleanups) == 0 {
+		return false
+	}
+	for _, cu := range cleanups {
+		if !core.Precedes(rm, cu, func(x ssa.Instruction) bool {
+			_, ok := core.IsCall(x, core.CalleeID{Pkg: "fw/dispatch", Name: "RemoveFace"})
+			return ok
+		}) {
+			return false
+		}
+	}
+	return true
 }
